@@ -121,9 +121,13 @@ def judge_sql(w, sql, dialect, schema, do_bind):
         st["refs_decided"] = b["stats"]["refs_checked"] - b["stats"]["refs_open"]
         if "monitor_error" in b:
             st["monitor_error"] = 1
+        # root-cause tag, see sqlscope: an aggregate call next to plain columns in a SELECT without GROUP BY
+        tag = "+misplaced_aggregate" if b.get("misplaced_aggregate") else ""
+        if tag:
+            st["misplaced_aggregate"] = 1
         for p in b["problems"]:
             d = re.sub(r"'[^']*'|\[[^\]]*\]|\d+", "_", p["detail"])[:80]
-            out.append(("bind:" + p["kind"] + ":" + d.split(":")[0], p["detail"][:300]))
+            out.append(("bind:" + p["kind"] + ":" + d.split(":")[0] + (tag if p["kind"] in ("unresolved_column", "unknown_relation") else ""), p["detail"][:300]))
     return out, st
 
 
@@ -269,7 +273,7 @@ def _shard(seed, shard, n_rel, corpus_srcs):
                         obs["engine_unsupported"] += 1
                     else:
                         msg = re.sub(r"[\w.]*_expr_\d+|table_\d+(\.\w+)?|\b[a-z]\d+\.\w+", "X", e["sqlite_error"].split(" in ")[0])
-                        out.append(("sqlite_prepare:" + cls + ":" + re.sub(r"\d+", "N", msg)[:60], e["sqlite_error"][:300]))
+                        out.append(("sqlite_prepare:" + cls + ":" + re.sub(r"\d+", "N", msg)[:60] + ("+misplaced_aggregate" if st.get("misplaced_aggregate") else ""), e["sqlite_error"][:300]))
                 else:
                     obs["prepared_sqlite"] += 1
             for (sym, det) in out:
@@ -302,13 +306,13 @@ def _shard(seed, shard, n_rel, corpus_srcs):
                             r2 = w.call({"op": "compile", "src": s2, "target": "sql." + dialect})
                             if "sql" not in r2:
                                 return False
-                            o2, _ = judge_sql(w, r2["sql"], dialect, SCHEMA, True)
+                            o2, st2 = judge_sql(w, r2["sql"], dialect, SCHEMA, True)
                             if dialect in ("sqlite", "generic") and sym.startswith("sqlite_prepare"):
                                 e2 = w.call({"op": "db_exec", "name": "d", "sql": r2["sql"], "prepare_only": True})
                                 if "sqlite_error" in e2:
                                     cls2 = relcheck.classify_sqlite_error(e2["sqlite_error"], dialect)
                                     msg2 = re.sub(r"[\w.]*_expr_\d+|table_\d+(\.\w+)?|\b[a-z]\d+\.\w+", "X", e2["sqlite_error"].split(" in ")[0])
-                                    o2.append(("sqlite_prepare:" + cls2 + ":" + re.sub(r"\d+", "N", msg2)[:60], ""))
+                                    o2.append(("sqlite_prepare:" + cls2 + ":" + re.sub(r"\d+", "N", msg2)[:60] + ("+misplaced_aggregate" if st2.get("misplaced_aggregate") else ""), ""))
                             return any(s == sym for s, _ in o2)
                         rp = relcheck.reduce_prog(prog, fails, max_tests=150)
                         wit = {"src": grel.pp_program(rp), "dialect": dialect, "prog": rp}
@@ -375,14 +379,14 @@ def replay(case):
     out = []
     if "sql" in r:
         has_sstring = bool(re.search(r"\bs\"|\bs'", case["src"]))
-        o, _ = judge_sql(w, r["sql"], dialect, SCHEMA if (case.get("prog") or case.get("schema")) else None, not has_sstring)
+        o, st = judge_sql(w, r["sql"], dialect, SCHEMA if (case.get("prog") or case.get("schema")) else None, not has_sstring)
         if (case.get("prog") or case.get("schema")) and dialect in ("sqlite", "generic"):
             e = w.call({"op": "db_exec", "name": "d", "sql": r["sql"], "prepare_only": True})
             if "sqlite_error" in e:
                 cls = relcheck.classify_sqlite_error(e["sqlite_error"], dialect)
                 if cls != "engine_unsupported":
                     msg = re.sub(r"[\w.]*_expr_\d+|table_\d+(\.\w+)?|\b[a-z]\d+\.\w+", "X", e["sqlite_error"].split(" in ")[0])
-                    o.append(("sqlite_prepare:" + cls + ":" + re.sub(r"\d+", "N", msg)[:60], e["sqlite_error"][:300]))
+                    o.append(("sqlite_prepare:" + cls + ":" + re.sub(r"\d+", "N", msg)[:60] + ("+misplaced_aggregate" if st.get("misplaced_aggregate") else ""), e["sqlite_error"][:300]))
         out = []
         for s_, d in o:
             dl = "any" if s_.startswith("bind:") else dialect
